@@ -164,7 +164,13 @@ func runC15Enum(c *sim.Ctx, u int, chunk int) {
 			counts[class]++
 			mut := append([]byte(nil), img...)
 			mut[off] = byte(v)
-			for _, when := range []string{"at-open", "between-transactions"} {
+			moments := []string{"at-open", "between-transactions"}
+			if class == hdrReject || (off+v)%8 == 0 {
+				// the handle is open but has not read anything yet when the header changes
+				// (every must-reject value, a sample of the others)
+				moments = append(moments, "before-first-read")
+			}
+			for _, when := range moments {
 				m := &pg.Mem{Image: img}
 				if when == "at-open" {
 					m.Image = mut
@@ -182,6 +188,12 @@ func runC15Enum(c *sim.Ctx, u int, chunk int) {
 					}
 					m.Image = mut
 					c.Fault("header-rewrite-between-transactions")
+				} else if when == "before-first-read" {
+					if err != nil {
+						c.Troublef("base image rejected on reopen")
+					}
+					m.Image = mut
+					c.Fault("header-rewrite-before-first-read")
 				} else {
 					c.Fault("header-byte-at-open")
 					if err != nil {
@@ -351,7 +363,7 @@ func init() {
 	sim.Register(&sim.Prop{
 		ID: "C15", Engine: "E-PAGE", Level: "fault_enumeration", Fn: runC15, NewEnv: NewEnv,
 		Runs: map[string]int{"quick": 96, "thorough": 960},
-		Rule: "runs 0..79 (mod 96) enumerate COMPLETELY, for a base image of each of the eight page-size encodings SQLite can write (512..32768 and 65536 stored as 1), every header byte 0..99 x every value 0..255, applied (i) at open and (ii) on a long-lived handle with warm page/schema caches between two transactions; expected class per (field, value): must-reject (every operation errors, no callback), must-accept (results identical to the base image) or don't-care (payload fractions, reserved bytes, schema format 0/1, encoding 0, write version, a valid but wrong page size); the other runs use real WAL databases with un-checkpointed content and UTF-16le/be databases written by SQLite, also switched/rebuilt under an open handle; the thorough tier repeats with ten base images per page size; evaluations = (image, moment) pairs; distinct = distinct event logs",
+		Rule: "runs 0..79 (mod 96) enumerate COMPLETELY, for a base image of each of the eight page-size encodings SQLite can write (512..32768 and 65536 stored as 1), every header byte 0..99 x every value 0..255, applied (i) at open, (ii) on a long-lived handle with warm page/schema caches between two transactions and (iii, every must-reject value and one in eight of the others) on a handle that is open but has not read yet; expected class per (field, value): must-reject (every operation errors, no callback), must-accept (results identical to the base image) or don't-care (payload fractions, reserved bytes, schema format 0/1, encoding 0, write version, a valid but wrong page size); the other runs use real WAL databases with un-checkpointed content and UTF-16le/be databases written by SQLite, also switched/rebuilt under an open handle; the thorough tier repeats with ten base images per page size; evaluations = (image, moment) pairs; distinct = distinct event logs",
 		Real: append([]string{"header parsing and every read entry point on the simulated disk; real file pager for the WAL/UTF-16 scenarios"}, realAll...),
 		Stub: []string{"file pager replaced by pg.Mem for the enumeration"},
 		Assumptions: []string{"schema formats 1..3 cannot be written by SQLite 3.40.1 (legacy_file_format is a no-op): reached by relabelling the format field", "the classification of header fields is the property's own; don't-care fields are listed in the rule"},
